@@ -274,6 +274,38 @@ def c02_e(ctx: Ctx):
             out.append(ctx.ok(R, fi, n.ast, f"all {len(paths)} path(s) to the directory_known handle establish existence first"))
     if not out:
         out.append(ctx.inc(R, fi, fi.node, "no Job(..., directory_known=True) return found in open_job"))
+    # abbreviated ids: a unique match is taken, several matches raise LookupError, none raises KeyError
+    for n in cfg.stmt_nodes():
+        a = n.ast
+        if isinstance(a, ast.Assign) and any(isinstance(t, ast.Name) and t.id == idp for t in a.targets) and isinstance(a.value, ast.Subscript):
+            facts = common.facts_at(ctx, fi, a, "nx")
+            coll = canon(a.value.value)
+            if (f"len({coll}) == 1", True) in facts:
+                out.append(ctx.ok(R, fi, a, f"an abbreviated id is resolved only when exactly one listed id matches (len({coll}) == 1)"))
+            else:
+                out.append(ctx.viol(R, fi, a, f"an abbreviated id is resolved to {canon(a.value)} without establishing that exactly one id matches (facts: {sorted(facts)}): "
+                                    "an ambiguous prefix silently opens one of the candidates instead of raising LookupError"))
+        if isinstance(a, ast.Raise) and a.exc is not None:
+            nm = dotted(a.exc.func if isinstance(a.exc, ast.Call) else a.exc)
+            if nm == "LookupError":
+                facts = common.facts_at(ctx, fi, a, "nx")
+                if any(pol and t.replace(" ", "").startswith("len(") and t.replace(" ", "").endswith(">1") for (t, pol) in facts):
+                    out.append(ctx.ok(R, fi, a, "LookupError is raised when more than one listed id matches the abbreviation"))
+                else:
+                    out.append(ctx.viol(R, fi, a, f"LookupError is raised under {sorted(facts)}, not when several ids match"))
+    matches = [n for n in body_nodes(fi) if isinstance(n, ast.Assign) and any(isinstance(t, ast.Name) and t.id == "matches" for t in n.targets)]
+    for mdef in matches:
+        v = mdef.value
+        if isinstance(v, ast.ListComp) and v.generators:
+            cond = " and ".join(canon(c) for c in v.generators[0].ifs).replace(" ", "")
+            src = common.inline_at(ctx, fi, v.generators[0].iter, mdef)
+            listed = any(isinstance(x, ast.Call) and any(q.endswith(("_find_job_ids", "_job_dirs")) for q in common.targets_of(ctx, fi, x)) for x in ast.walk(src))
+            if cond == f"id_.startswith({idp})" and listed:
+                out.append(ctx.ok(R, fi, mdef, "candidates are the listed ids that start with the abbreviation"))
+            elif not listed:
+                out.append(ctx.viol(R, fi, mdef, f"candidates for an abbreviated id are taken from {canon(v.generators[0].iter)}, not from the directory listing"))
+            else:
+                out.append(ctx.viol(R, fi, mdef, f"candidates are selected by `{cond}`, not by `id_.startswith({idp})`: an abbreviation matches ids it is not a prefix of"))
     return out
 
 
